@@ -158,6 +158,14 @@ CHECKS = {
              "fork of a zygote process that imported fastavro and never called it; the two observations must be equal, and deep "
              "fingerprints of schema/data arguments must be unchanged by the call.",
         ref="DESIGN.md §4 C17"),
+    "C18": dict(
+        cat="exploration", tech="runtime monitoring: deterministic thread scheduler on sys.monitoring LINE events; all one-preemption schedules per operation pair enumerated",
+        text="Real operations run in worker threads on distinct streams sharing parsed schemas; a sys.monitoring LINE callback on the "
+             "fastavro code is the only point where a thread can be descheduled, so each run realises exactly the schedule it was "
+             "given and can be replayed. For every explored ordered pair of operations all one-preemption schedules are executed "
+             "(exhaustive within that bound), plus random 2-3-preemption and (thorough) 3-thread schedules; each thread's "
+             "observation must equal its sequential observation. Evidence reports schedules executed and distinct interleavings.",
+        ref="DESIGN.md §4 C18"),
 }
 
 NOT_YET = "check not built yet in this session (see DESIGN.md §8 build order)"
